@@ -15,10 +15,13 @@ package p2p
 // each half writes and merges them (merge_evidence). Each half reports its own
 // violations through its own Check; neither reads the other's output.
 //
+// The stream part (every small size, back-to-back batches, retention of
+// delivered frames) is in mc_c31_stream_test.go.
+//
 // No wall-clock oracle: the only time limits are the transport's own I/O
 // deadlines (10 s write, 20 s read per frame); an I/O timeout on the loaded
-// loopback is retried on a fresh connection and then reported as a harness
-// problem, never as a violation.
+// loopback is retried on a fresh connection and then marks the run capped
+// (exhaustive:false, exit 0), never a violation.
 
 import (
 	"context"
@@ -157,7 +160,7 @@ func TestMC_C31(t *testing.T) {
 				return true
 			}
 		}
-		c.Require(false, "cannot set up the loopback QUIC pair: %v", err)
+		c.Capped(fmt.Sprintf("framing part incomplete (loopback QUIC unavailable, not a verdict): %v", err))
 		return false
 	}
 	if !newPair() {
@@ -193,7 +196,7 @@ func TestMC_C31(t *testing.T) {
 			}
 			switch {
 			case c31IsTimeout(sendErr) || c31IsTimeout(got.err):
-				c.Require(false, "loopback too slow for a %d byte frame within the transport's own deadlines: %v %v", n, sendErr, got.err)
+				c.Capped(fmt.Sprintf("framing part incomplete (loopback too slow for a %d byte frame within the transport's own deadlines, not a verdict): %v %v", n, sendErr, got.err))
 				return
 			case sendErr != nil:
 				c.Outcome("roundtrip:send-refused")
@@ -246,7 +249,7 @@ func TestMC_C31(t *testing.T) {
 		sendErr, got := c31Transfer(pair.client, pair.server, probe)
 		c.Eval(1)
 		if c31IsTimeout(sendErr) || c31IsTimeout(got.err) {
-			c.Require(false, "loopback too slow after a refused Send: %v %v", sendErr, got.err)
+			c.Capped(fmt.Sprintf("framing part incomplete (loopback too slow after a refused Send, not a verdict): %v %v", sendErr, got.err))
 			return
 		}
 		if sendErr != nil || got.err != nil || sha256.Sum256(got.m.Data) != sha256.Sum256(probe) {
@@ -289,7 +292,7 @@ func TestMC_C31(t *testing.T) {
 			frame = append(frame, c31Payload(int(hc.announce), 5)...)
 		}
 		if _, err := pair.server.stream.Write(frame); err != nil {
-			c.Require(false, "raw header write failed: %v", err)
+			c.Capped(fmt.Sprintf("framing part incomplete (raw header write failed, not a verdict): %v", err))
 			continue
 		}
 		runtime.GC()
@@ -307,7 +310,7 @@ func TestMC_C31(t *testing.T) {
 		replay := map[string]any{"call": hc.name, "announced": hc.announce}
 		switch {
 		case c31IsTimeout(err):
-			c.Require(false, "%s timed out on a %d byte announcement: %v", hc.name, hc.announce, err)
+			c.Capped(fmt.Sprintf("framing part incomplete (%s timed out on a %d byte announcement, not a verdict): %v", hc.name, hc.announce, err))
 		case hc.accept && (err != nil || m == nil || uint32(len(m.Data)) != hc.announce):
 			c.Outcome("receive:refused-at-limit")
 			c.Violation("receive:refuses-legal-size", fmt.Sprintf("%s refused a frame of exactly the limit (%d bytes): %v", hc.name, hc.announce, err), replay)
@@ -353,5 +356,6 @@ func TestMC_C31(t *testing.T) {
 	c.Set("io_retries", ioTrouble)
 	c.Require(c.OutcomeCount("roundtrip:exact") > 0 || c.Violations() > 0, "no round trip succeeded")
 
-	c.SetRule("framing: frame sizes {1,2,6,65535,65536,max-1,max} x 2 directions round-trip consecutively on one stream; Send of {0,max+1} followed by a legal frame; hand-written headers announcing {max+1, 2^32-1} to Receive and receiveWithLimit(max) with the allocation measured, {limit, limit+1} to receiveWithLimit(1|6); invalid limits {0,max+1}; a torn frame; a case is distinct by (operation, direction or call, size)")
+	c31Stream(c)
+	c.SetRule("stream: every payload size 1..2100, 2^k-1|2^k|2^k+1 (k<=20), 65528..65544 and mixed long/short orders, sent back to back in batches of 64 in both directions over one connection each, every frame compared on delivery and again after its batch and after the next batch; a case is distinct by (direction, batch, position, size) || framing: frame sizes {1,2,6,65535,65536,max-1,max} x 2 directions round-trip consecutively on one stream; Send of {0,max+1} followed by a legal frame; hand-written headers announcing {max+1, 2^32-1} to Receive and receiveWithLimit(max) with the allocation measured, {limit, limit+1} to receiveWithLimit(1|6); invalid limits {0,max+1}; a torn frame; a case is distinct by (operation, direction or call, size)")
 }
